@@ -8,7 +8,7 @@ from .registry import clause_text, clause_active
 SPEC_FUNCS = {"old", "implies", "forall", "exists", "isint", "isstr", "isnone", "isbool", "isref", "ispath", "isfloat",
               "isbytes", "elems", "at", "length", "result", "iff", "count_where", "isclass", "keys", "lookup", "haskey",
               "distinct", "isfile", "isdir", "exists_path", "issymlink", "fs_text", "fs_target", "effect", "no_effect",
-              "effect_count", "fresh", "unchanged", "ite", "seq_eq", "raised", "isfresh", "forall_keys", "forall_val", "isregular", "isabsent", "effect_before", "effect_result", "at_effect", "fs_read", "parses_int", "writes_count", "effect_arg", "bm_self", "p_joinp", "dict_unchanged", "reached_loop", "effect_with_arg"}
+              "effect_count", "fresh", "unchanged", "ite", "seq_eq", "raised", "isfresh", "forall_keys", "forall_val", "isregular", "isabsent", "effect_before", "effect_result", "at_effect", "fs_read", "parses_int", "writes_count", "effect_arg", "bm_self", "p_joinp", "dict_unchanged", "reached_loop", "effect_with_arg", "monotone_true", "at_iteration_start", "p_relative_to"}
 
 
 class CallMixin:
@@ -87,6 +87,14 @@ class CallMixin:
         b = getattr(self, f"m_{ty}_{meth}", None)
         if b is not None:
             return b(st, recv, args, kw, lineno)
+        if ty in self.reg.classes and self.declares_field(ty, meth):
+            # obj.field(...) : the field holds a callable; dispatch on the declared type of the field
+            out = []
+            for r in self.getattr(st, recv, meth, lineno):
+                if not r.ok:
+                    out.append(r); continue
+                out += self.call_method(r.st, r.val, "__call__", args, lineno, kw=kw)
+            return out
         raise Unsupported(f"method {recv.ty}.{meth} (no contract) at line {lineno}")
 
     def call_function(self, st, key, args, kw, lineno, recv_ty=None):
@@ -227,7 +235,8 @@ class CallMixin:
             finally:
                 self._fresh_range = saved_fr
             if eff:
-                s2.trace.append(Effect(eff, list(args), lineno, s2.copy(), res=res))
+                eff_args = [binds[p_] for p_ in (c.get("params") or []) if p_ in binds] or list(args)     # in parameter order, keywords included
+                s2.trace.append(Effect(eff, eff_args, lineno, s2.copy(), res=res))
                 self.on_effect(s2, s2.trace[-1])
             if kind == "normal":
                 if not self.feasible(s2):
